@@ -49,7 +49,12 @@ Inductive case :=
        (clock times not compared).  [final]: the generators held at the end, in map order *)
 | CWinRate (wins total : Q) (r : option Q)
 | CProfitFactor (profits losses : Q) (r : option pf_obs)
-| CReturn (pnl price qty : Q) (r : option Q).
+| CReturn (pnl price qty : Q) (r : option Q)
+| CPersist (points : list N) (changed : bool) (c : case).
+    (* the history of [c] with persist/restore steps inserted after the listed step numbers: every
+       TearSheetGenerator (with its PnLReturns) and asset generator held at that point is serialised
+       with serde_json, deserialised and the history continues on the restored values.  The model
+       treats such a step as a no-op; [changed] = some restored value differed from the original *)
 
 (* ---- conversions --------------------------------------------------------------------------------- *)
 
@@ -216,7 +221,7 @@ Definition pf_of_obs (v : option pf_value) : option pf_obs :=
   | Some (PFVal x) => Some (OPFVal (uq x))
   end.
 
-Definition corr_b (c : case) : bool :=
+Fixpoint corr_b (c : case) : bool :=
   match c with
   | CSheet t0 ps g0 sh0 steps =>
       let rs := obs_rets ps in
@@ -243,6 +248,7 @@ Definition corr_b (c : case) : bool :=
       | m, o => pf_close m o
       end
   | CReturn pnl price qty r => ret_close (mkPosIn pnl price qty 0 r)
+  | CPersist _ changed c' => negb changed && corr_b c'
   end.
 
 (* ---- the oracle ---------------------------------------------------------------------------------------------- *)
@@ -326,7 +332,7 @@ Fixpoint prop_summary (scp : Q) insts assets (done rest : list sop_in) (steps : 
   | _, _ => false
   end.
 
-Definition prop_b (c : case) : bool :=
+Fixpoint prop_b (c : case) : bool :=
   match c with
   | CSheet t0 ps g0 sh0 steps =>
       let rs := obs_rets ps in
@@ -354,6 +360,7 @@ Definition prop_b (c : case) : bool :=
         end
       else true
   | CReturn pnl price qty r => ret_close (mkPosIn pnl price qty 0 r)
+  | CPersist _ changed c' => negb changed && prop_b c'   (* persist/restore must be the identity *)
   end.
 
 (** input requirements: every position has a non-zero cost (price * quantity), keys are
@@ -367,13 +374,14 @@ Definition addr_ok (ni na : nat) (insts : list string) (akeys : list string) (o 
   | ITime _ => true
   end.
 
-Definition wf_case (c : case) : bool :=
+Fixpoint wf_case (c : case) : bool :=
   match c with
   | CSheet _ ps _ _ _ => forallb pos_in_ok ps
   | CSummary _ _ insts assets ops _ _ _ =>
       forallb pos_in_ok (all_pos ops) && nodup_str insts && nodup_str (map fst assets) &&
       forallb (addr_ok (List.length insts) (List.length assets) insts (map fst assets)) ops
   | CReturn _ price qty _ => negb (Qeq_bool (price * qty) 0)
+  | CPersist _ _ c' => wf_case c'
   | _ => true
   end.
 
@@ -387,10 +395,11 @@ Definition wf_case (c : case) : bool :=
 Definition ret_min : Q := 1 # 1000000.
 Definition ret_in_range (p : pos_in) : bool :=
   let r := uq (pnl_return (pos_of p)) in Qeq_bool r 0 || Qle_bool ret_min (Qabs' r).
-Definition in_range_case (c : case) : bool :=
+Fixpoint in_range_case (c : case) : bool :=
   match c with
   | CSheet _ ps _ _ _ => forallb ret_in_range ps
   | CSummary _ _ _ _ ops _ _ _ => forallb ret_in_range (all_pos ops)
+  | CPersist _ _ c' => in_range_case c'
   | _ => true
   end.
 
